@@ -1,7 +1,7 @@
 (* Properties/C08.v — Applying a diff to the right document reconstructs the left one. *)
 From Coq Require Import List String Bool ZArith Arith.
 From YT Require Import Base.Str Base.KV Base.Sort Model.Doc Model.Dom Model.Builder Model.Diff Model.Apply
-  Model.Path Proofs.BuilderProofs Proofs.PathProofs Proofs.ApplyProofs Proofs.FrameProofs Proofs.ApplyLookupProofs Proofs.DiffNilProofs Proofs.ReconstructProofs.
+  Model.Path Proofs.BuilderProofs Proofs.PathProofs Proofs.ApplyProofs Proofs.FrameProofs Proofs.ApplyLookupProofs Proofs.DiffNilProofs Proofs.ReconstructProofs Proofs.ReconstructKeyedProofs.
 Import ListNotations.
 Local Open Scope list_scope.
 
@@ -71,13 +71,44 @@ Theorem C08_reconstruct_from_empty : forall kl p v,
 Proof. exact reconstruct_from_empty. Qed.
 Print Assumptions C08_reconstruct_from_empty.
 
-(* Not proved in general (decided on every run by the correspondence: the whole document
+(* Reconstruction when L and R differ by added and removed keys at any depth (wherever both have a
+   position they agree: same kind, equal scalars, identical lists): after Apply(R, Diff(L,R)) every
+   flattened path of L resolves to its leaf.  Every modification of such a diff is an Add of a leaf
+   position of L or a Delete of a position absent from L, and both diverge from every OTHER leaf
+   position of L, so nothing that is or has been put in place is disturbed — in any order. *)
+Theorem C08_reconstruct_keyed : forall kl kr p v,
+  wf (Con kl) = true -> keys_safe (Con kl) = true -> wf (Con kr) = true -> keys_safe (Con kr) = true ->
+  compat_k (Con kl) (Con kr) ->
+  In (p, v) (flatten (Con kl)) ->
+  lookup p (apply (Con kr) (diff (Con kl) (Con kr))) = Some (Leaf v).
+Proof. exact reconstruct_keyed. Qed.
+Print Assumptions C08_reconstruct_keyed.
+
+(* the classification behind it: what such a diff consists of, and that it misses no leaf of L *)
+Theorem C08_diff_keyed_class : forall l r path,
+  wf l = true -> keys_safe l = true -> wf r = true -> keys_safe r = true -> compat_k l r ->
+  (forall m, In m (diff_node canonical l r path) -> mod_class l path m) /\
+  (forall sigma v, In (sigma, v) (flatten_steps l) ->
+     get_steps sigma r = Some (Leaf v) \/
+     In (mkMod MAdd (relpath path sigma) v SNull) (diff_node canonical l r path)).
+Proof. exact diff_keyed_class. Qed.
+Print Assumptions C08_diff_keyed_class.
+
+(* Not proved (decided on every run by the correspondence: the whole document
    Apply(R, Diff(L,R)) is compared with this model, and Flatten(Apply(R,Diff(L,R))) == Flatten(L)
-   is a Go-side oracle on the stated domain):
-   - apply_diff_flatten : compatible l r -> every_item_has_scalar l r ->
-                          flatten (apply r (diff l r)) = flatten l     for arbitrary r *)
+   is a Go-side oracle on the stated domain): the same with lists that DIFFER at a common position
+   (the Delete of the list must precede the Adds that rebuild it: an argument about the sort order),
+   and the converse half — no leaf of R outside L survives (exactness of the flattened view). *)
 
 (* non-vacuity: the pair that was reconstructed wrongly on the pinned tree, and a list of lists *)
+Example C08_ex_keyed :
+  let l := Con [("a"%string, Con [("n"%string, Con [("deep"%string, Lst [Leaf (SInt 1); Lst [Leaf (SInt 2)]])]); ("x"%string, Leaf (SInt 1))]);
+                ("l"%string, Lst [Leaf (SInt 1)])] in
+  let r := Con [("a"%string, Con [("gone"%string, Leaf (SInt 0)); ("x"%string, Leaf (SInt 1))]);
+                ("l"%string, Lst [Leaf (SInt 1)]); ("z"%string, Con [("q"%string, Leaf SNull)])] in
+  wf l = true /\ wf r = true /\ compat_k l r /\ flatten (apply r (diff l r)) = flatten l.
+Proof. split; [reflexivity|]. split; [reflexivity|]. split; [cbn; tauto|vm_compute; reflexivity]. Qed.
+
 Example C08_ex :
   let l := Con [("a"%string, Lst [Con [("x"%string, Leaf (SInt 1)); ("y"%string, Leaf (SInt 2))]]);
                 ("m"%string, Lst [Lst [Leaf (SInt 1); Leaf (SInt 2)]; Lst [Leaf (SInt 3)]])] in
